@@ -1,9 +1,26 @@
 (* C14 — vxfw layout contract and surface addressing hold for every constraint.
-   Statements only; proofs live in proofs/SurfaceProofs.v and proofs/WidgetsProofs.v. *)
-From Vx Require Import base.Prelude model.Surface proofs.SurfaceProofs.
+   Statements only; proofs live in proofs/SurfaceProofs.v, proofs/WidgetsProofs.v and
+   proofs/RenderProofs.v.
 
-(* ---- Surface addressing.
-   NewSurface(w,h) has exactly w*h cells for all uint16 sizes (also above 65535 cells). *)
+   Full statement (properties.jsonl): every built-in widget, for every drawing constraint,
+   returns a surface no larger than the maximum it was given, centres a child that fits so
+   that it lies fully inside its parent with margins equal to within one cell, and does not
+   panic for zero, tiny or very large constraints or contents.  Surface addressing is exact
+   for all surface sizes including those with more than 65 535 cells, and rendering a surface
+   tree paints each child at its offset, clipped to its parent, in z-order.
+
+   What is proved below, over the model of the code as it is now (after the fixes listed in
+   the report): all of it, for every uint16 constraint, every list of lines and every character
+   width, with these limits — the line scanners and ctx.Characters are oracles (the theorems
+   hold for whatever lines they yield); list.Dynamic is modelled in its initial scroll state
+   only (scrolling is C19); styles and the cursor part of render are not modelled. *)
+From Vx Require Import base.Prelude model.Surface model.Widgets
+  proofs.SurfaceProofs proofs.WidgetsProofs proofs.RenderProofs.
+From Coq Require Import Permutation Sorted.
+
+(* ================================================================== surface addressing *)
+
+(* NewSurface(w,h) has exactly w*h cells for all uint16 sizes (also above 65535 cells). *)
 Theorem C14_new_surface_len : forall (A : Type) (blank : A) w h,
   0 <= w < 65536 -> 0 <= h < 65536 ->
   wf_node (new_surface blank w h) /\ zlen (s_buf (new_surface blank w h)) = w * h.
@@ -35,6 +52,16 @@ Theorem C14_write_lands_in_addressed_cell : forall (A : Type) (s s' : surface A)
 Proof. intros A s s' col row c col' row' Hwf Hc Hr; apply write_cell_cell_at; [exact Hwf|lia|lia]. Qed.
 Print Assumptions C14_write_lands_in_addressed_cell.
 
+(* Any sequence of writes on NewSurface(w,h): no panic, and the observation of the model
+   (buffer length, non-blank cells) passes the decidable check [surface_ok] that the
+   differential run applies to the implementation: w*h cells, each holding the last write
+   addressed to it. *)
+Theorem C14_write_sequence_ok : forall w h ws,
+  0 <= w < 65536 -> 0 <= h < 65536 -> Forall write_nonneg ws ->
+  surface_ok ((w, h, ws), surface_run (w, h, ws)) = true.
+Proof. exact surface_run_ok. Qed.
+Print Assumptions C14_write_sequence_ok.
+
 (* non-vacuity: a well-formed surface with more than 65535 cells, a write into its last cell *)
 Example C14_example_big :
   wf_node (new_surface 0 300 300) /\ zlen (s_buf (new_surface 0 300 300)) = 90000 /\
@@ -44,14 +71,203 @@ Example C14_example_big :
   end.
 Proof. split; [apply new_surface_wf; lia|]. split; vm_compute; reflexivity. Qed.
 
-(* The code before the fixes (uint16 product in NewSurface, `row > Height`, uint16 index in
-   WriteCell) violated each clause; kept as regression witnesses over the old definitions. *)
+(* ================================================================== layout contract *)
+
+(* Text and RichText (soft wrap or not), for every list of lines the scanner may yield, every
+   character width and every constraint 0..65535: Draw does not panic, the surface is well
+   formed, its width is within Max.Width and its height is exactly min(Max.Height, #lines). *)
+Theorem C14_text_size : forall soft lines maxw maxh,
+  0 <= maxw < 65536 -> 0 <= maxh < 65536 ->
+  exists s, text_draw soft lines maxw maxh = DOk s /\ wf_tree s /\
+            0 <= s_w s <= maxw /\ s_h s = Z.min maxh (zlen lines) /\ s_kids s = [].
+Proof. exact text_draw_spec. Qed.
+Print Assumptions C14_text_size.
+
+(* Every tree of built-in widgets (Text, RichText, Center, Button, TextField, list.Dynamic in
+   its initial state; arbitrarily nested), every constraint 0..65535, every content: Draw
+   either returns a well-formed surface tree no larger than the maximum, or panics — and it
+   panics only if a widget that documents "bounded constraints required" (Center, Button,
+   Dynamic) is handed an unbounded (65535) one. *)
+Theorem C14_size_within_max : forall ws maxw maxh,
+  0 <= maxw < 65536 -> 0 <= maxh < 65536 ->
+  match draw ws maxw maxh with
+  | DOk s => wf_tree s /\ 0 <= s_w s <= maxw /\ 0 <= s_h s <= maxh
+  | DPanic => contract_panic ws maxw maxh = true
+  end.
+Proof. exact draw_contract_all. Qed.
+Print Assumptions C14_size_within_max.
+
+(* in particular: no panic at all for Text, RichText and TextField, whatever the constraint,
+   and none for a Center of them under bounded constraints (zero and tiny ones included) *)
+Theorem C14_no_panic_leaves : forall rich soft lines chars maxw maxh,
+  0 <= maxw < 65536 -> 0 <= maxh < 65536 ->
+  draw (WText rich soft lines) maxw maxh <> DPanic /\ draw (WField chars) maxw maxh <> DPanic /\
+  (maxw < 65535 -> maxh < 65535 ->
+   draw (WCenter (WText rich soft lines)) maxw maxh <> DPanic /\ draw (WButton lines) maxw maxh <> DPanic).
+Proof.
+  intros rich soft lines chars maxw maxh Hw Hh.
+  pose proof (draw_contract_all (WText rich soft lines) maxw maxh Hw Hh) as H1.
+  pose proof (draw_contract_all (WField chars) maxw maxh Hw Hh) as H2.
+  pose proof (draw_contract_all (WCenter (WText rich soft lines)) maxw maxh Hw Hh) as H3.
+  pose proof (draw_contract_all (WButton lines) maxw maxh Hw Hh) as H4.
+  unfold draw_contract in *.
+  split; [intros E; rewrite E in H1; discriminate|].
+  split; [intros E; rewrite E in H2; discriminate|].
+  intros Hbw Hbh.
+  assert (Hu : (maxh =? 65535) || (maxw =? 65535) = false) by lia.
+  split; intros E; [rewrite E in H3 | rewrite E in H4]; cbn [contract_panic] in *; rewrite Hu in *; discriminate.
+Qed.
+Print Assumptions C14_no_panic_leaves.
+
+(* Center with ANY child widget (an arbitrary function of the constraint) that honours the
+   contract under bounded constraints: the surface has exactly the maximum size, the child is
+   its only sub-surface, lies fully inside, and the right/bottom margin exceeds the left/top
+   margin by 0 or 1. *)
+Theorem C14_center_margins : forall (child : Z -> Z -> cres) maxw maxh chS,
+  0 <= maxw < 65535 -> 0 <= maxh < 65535 -> child maxw maxh = COk chS ->
+  0 <= s_w chS <= maxw -> 0 <= s_h chS <= maxh ->
+  exists s offX offY, center_draw child maxw maxh = DOk s /\ s_w s = maxw /\ s_h s = maxh /\
+    s_kids s = [(offX, offY, 0, chS)] /\
+    0 <= offX /\ offX + s_w chS <= maxw /\ 0 <= (maxw - s_w chS - offX) - offX <= 1 /\
+    0 <= offY /\ offY + s_h chS <= maxh /\ 0 <= (maxh - s_h chS - offY) - offY <= 1.
+Proof. exact center_margins. Qed.
+Print Assumptions C14_center_margins.
+
+(* Center over any tree of built-in widgets: the child always fits, so it is always centred *)
+Theorem C14_center_builtin_margins : forall ch maxw maxh chS,
+  0 <= maxw < 65535 -> 0 <= maxh < 65535 -> draw ch maxw maxh = DOk chS ->
+  exists s offX offY, draw (WCenter ch) maxw maxh = DOk s /\ s_w s = maxw /\ s_h s = maxh /\
+    s_kids s = [(offX, offY, 0, chS)] /\
+    0 <= offX /\ offX + s_w chS <= maxw /\ 0 <= (maxw - s_w chS - offX) - offX <= 1 /\
+    0 <= offY /\ offY + s_h chS <= maxh /\ 0 <= (maxh - s_h chS - offY) - offY <= 1.
+Proof. exact center_builtin_margins. Qed.
+Print Assumptions C14_center_builtin_margins.
+
+(* Button: its label (a soft-wrapped Text of any content) is centred in a surface of exactly
+   the maximum size *)
+Theorem C14_button_margins : forall lines maxw maxh,
+  0 <= maxw < 65535 -> 0 <= maxh < 65535 ->
+  exists s offX offY chS, button_draw lines maxw maxh = DOk s /\ s_w s = maxw /\ s_h s = maxh /\
+    s_kids s = [(offX, offY, 0, chS)] /\ text_draw true lines maxw maxh = DOk chS /\
+    0 <= offX /\ offX + s_w chS <= maxw /\ 0 <= (maxw - s_w chS - offX) - offX <= 1 /\
+    0 <= offY /\ offY + s_h chS <= maxh /\ 0 <= (maxh - s_h chS - offY) - offY <= 1.
+Proof. exact button_margins. Qed.
+Print Assumptions C14_button_margins.
+
+(* The model's observation of every Draw passes the decidable contract check [draw_ok] that
+   the differential run applies to the implementation's observations. *)
+Theorem C14_draw_meets_contract : forall ws maxw maxh,
+  0 <= maxw < 65536 -> 0 <= maxh < 65536 ->
+  draw_ok ((ws, maxw, maxh), draw_run (ws, maxw, maxh)) = true.
+Proof. exact draw_run_ok. Qed.
+Print Assumptions C14_draw_meets_contract.
+
+(* non-vacuity: four lines under Max.Height = 2 (the input that used to return height 3), and
+   a button whose label is taller than the button *)
+Example C14_example_text :
+  text_draw false [[(4, 1)]; [(5, 1)]; [(6, 1)]; [(7, 1)]] 10 2 =
+    DOk (Surf 1 2 [(4, 1); (5, 1)] []) /\
+  match draw (WButton [[(4, 1)]; [(5, 1)]; [(6, 1)]; [(7, 1)]]) 10 2 with
+  | DOk s => s_kids s = [(4, 0, 0, Surf 1 2 [(4, 1); (5, 1)] [])]
+  | DPanic => False
+  end /\
+  draw (WCenter (WField [])) 65535 3 = DPanic /\ contract_panic (WCenter (WField [])) 65535 3 = true.
+Proof. repeat split; vm_compute; reflexivity. Qed.
+
+(* ================================================================== render *)
+
+(* Surface.render of any well-formed surface tree into any window (a chain of Window.New
+   frames), applied to any screen, for whatever order sort.Slice gives equal z-indices:
+   no panic; a screen cell inside the window's clip shows what [shown] prescribes — the
+   surface's own buffer cell at that point, overridden by each child that covers the point,
+   children taken in sorted order, each child (and its whole subtree) placed at its offset
+   and confined to its own rectangle — and every other screen cell is left untouched. *)
+Theorem C14_render_paints : forall (A : Type) (sorter : list Z -> list nat) (s : surface A) win (sc : screen A),
+  wf_tree s -> win <> [] -> screen_wf sc ->
+  exists ps sc', render_gen sorter win s = Some ps /\ screen_apply sc ps = Some sc' /\
+    sc_cols sc' = sc_cols sc /\ sc_rows sc' = sc_rows sc /\
+    forall x y, 0 <= x < sc_cols sc -> 0 <= y < sc_rows sc ->
+      screen_get sc' x y =
+        match (let '(ox, oy) := win_org win in
+               if win_clip win x y then shown sorter s ox oy x y else None) with
+        | Some c => Some c
+        | None => screen_get sc x y
+        end.
+Proof. intros A sorter s win sc; apply render_paints_screen. Qed.
+Print Assumptions C14_render_paints.
+
+(* z-order: for any sort that yields a permutation ascending in z (sort.Slice's contract),
+   [shown] is "own cell, then the children in some ascending-z order, later over earlier" *)
+Theorem C14_render_sorted_order : forall (A : Type) (sorter : list Z -> list nat), sorter_ok sorter ->
+  forall w h (buf : list A) kids ox oy x y,
+  exists kids', Permutation kids' kids /\ StronglySorted Z.le (map kid_z kids') /\
+    shown sorter (Surf w h buf kids) ox oy x y =
+    fold_left later
+      (map (fun k => if in_rect (ox + kid_col k) (oy + kid_row k) (s_w (kid_surf k)) (s_h (kid_surf k)) x y
+                     then shown sorter (kid_surf k) (ox + kid_col k) (oy + kid_row k) x y else None) kids')
+      (if in_rect ox oy w h x y then zget buf ((y - oy) * w + (x - ox)) else None).
+Proof. intros A sorter Hs w h buf kids ox oy x y; apply shown_sorted; exact Hs. Qed.
+Print Assumptions C14_render_sorted_order.
+
+(* ... hence, order-free: at every point either no child shows anything and the surface's own
+   cell is shown, or the shown cell comes from a child whose z-index is >= that of every
+   child showing something at that point. *)
+Theorem C14_render_z_order : forall (A : Type) (sorter : list Z -> list nat), sorter_ok sorter ->
+  forall w h (buf : list A) kids ox oy x y,
+  ((forall k, In k kids -> kid_shows sorter ox oy x y k = None) /\
+   shown sorter (Surf w h buf kids) ox oy x y =
+     (if in_rect ox oy w h x y then zget buf ((y - oy) * w + (x - ox)) else None)) \/
+  (exists k c, In k kids /\ kid_shows sorter ox oy x y k = Some c /\
+     shown sorter (Surf w h buf kids) ox oy x y = Some c /\
+     forall k' c', In k' kids -> kid_shows sorter ox oy x y k' = Some c' -> kid_z k' <= kid_z k).
+Proof. intros A sorter Hs w h buf kids ox oy x y; apply shown_topmost; exact Hs. Qed.
+Print Assumptions C14_render_z_order.
+
+(* the hypothesis is satisfiable: the executable sorter (stable insertion sort, which is what
+   sort.Slice runs for up to 12 elements) meets it *)
+Theorem C14_stable_sorter_ok : sorter_ok stable_perm.
+Proof. exact stable_perm_ok. Qed.
+Print Assumptions C14_stable_sorter_ok.
+
+(* The model's screen after render passes the decidable check [render_ok] that the
+   differential run applies to the real Vaxis screen. *)
+Theorem C14_render_meets_spec : forall cols rows (s : surface Z), 0 <= cols -> 0 <= rows ->
+  render_ok ((cols, rows, s), render_run (cols, rows, s)) = true.
+Proof. exact render_run_ok. Qed.
+Print Assumptions C14_render_meets_spec.
+
+(* non-vacuity: a 3x1 parent with two overlapping children; the higher z wins at x = 1, the
+   child hanging over the right edge is clipped to the parent's window *)
+Example C14_example_render :
+  wf_tree (Surf 3 1 [1; 2; 3] [(1, 0, 5, Surf 1 1 [9] []); (0, 0, 0, Surf 2 1 [7; 8] []); (2, 0, 1, Surf 4 1 [4; 5; 6; 6] [])]) /\
+  render_run (6, 2, Surf 3 1 [1; 2; 3] [(1, 0, 5, Surf 1 1 [9] []); (0, 0, 0, Surf 2 1 [7; 8] []); (2, 0, 1, Surf 4 1 [4; 5; 6; 6] [])])
+  = (0, [[7; 9; 4; 5; 6; 6]; [0; 0; 0; 0; 0; 0]]).
+Proof. split; [apply tree_wf_b_sound; vm_compute; reflexivity | vm_compute; reflexivity]. Qed.
+
+(* ================================================================== regression witnesses *)
+
+(* The code before the fixes violated the property; witnesses over the old definitions. *)
 Theorem C14_old_new_surface_refuted :
   zlen (s_buf (new_surface_u16 0 300 300)) = 24464 /\ 300 * 300 = 90000.
 Proof. exact old_new_surface_refuted. Qed.
 Print Assumptions C14_old_new_surface_refuted.
 
 Theorem C14_old_write_cell_refuted :
-  write_cell_u16 (new_surface_u16 0 3 2) 0 2 7 = None.
-Proof. exact old_write_cell_height_refuted. Qed.
+  write_cell_u16 (new_surface_u16 0 3 2) 0 2 7 = None /\
+  match write_cell_u16 (new_surface 0 300 300) 299 299 7 with
+  | Some s' => (zget (s_buf s') (299 * 300 + 299), zget (s_buf s') 24463)
+  | None => (None, None)
+  end = (Some 0, Some 7).
+Proof. exact (conj old_write_cell_height_refuted old_write_cell_wrap_refuted). Qed.
 Print Assumptions C14_old_write_cell_refuted.
+
+Theorem C14_old_text_height_refuted :
+  container_size_old [[(4, 1)]; [(5, 1)]; [(6, 1)]; [(7, 1)]] 10 2 0 0 = (1, 3).
+Proof. exact old_container_size_refuted. Qed.
+Print Assumptions C14_old_text_height_refuted.
+
+(* Center computes its offsets in uint16: a child that does NOT fit (which no built-in widget
+   produces any more) would be placed at a wrapped-around offset, e.g. row 32767 *)
+Theorem C14_center_misfit_offset : u16 (2 - 3) / 2 = 32767.
+Proof. exact center_offset_misfit. Qed.
+Print Assumptions C14_center_misfit_offset.
